@@ -220,7 +220,9 @@ def stepConv (char : Option Nat) (md : Modulus) : Except Err (Option Nat × Modu
   | .str cs => do
     let c := orD char 2
     gfpxType c
-    pure (some c, Modulus.poly c (ofCoeffs c cs))
+    -- the GF(2) term parser (gfpx.py:903-917) accepts the terms 0, 1, x, x^k only
+    if c == 2 && cs.any (· ≥ 2) then .error .valueError
+    else pure (some c, Modulus.poly c (ofCoeffs c cs))
   | .int n =>
     match char with
     | some (c + 1) =>
